@@ -24,9 +24,10 @@ Qed.
 Lemma ensure_buf_spec cap n cap' cost : 0 < cap -> ensure_buf cap n = (cap', cost) ->
   cost + 2 * cap = 2 * cap' /\ n <= cap' /\ cap <= cap' /\ (cap' = cap \/ cap' < 2 * n).
 Proof.
-  intros Hc H. unfold ensure_buf in H. apply ensure_buf_loop_spec in H; auto.
-  - lia.
-  - rewrite Nat2N.inj_succ, N2Nat.id, N.pow_succ_r'. pose proof (N.size_gt n). nia.
+  intros Hc H. unfold ensure_buf in H.
+  assert (Hn : n < cap * 2 ^ N.of_nat (S (N.to_nat (N.size n)))).
+  { rewrite Nat2N.inj_succ, N2Nat.id, N.pow_succ_r'. pose proof (N.size_gt n). nia. }
+  pose proof (ensure_buf_loop_spec n _ _ _ _ _ Hc Hn H). lia.
 Qed.
 
 (** ** ValidateStrListBytes *)
@@ -104,13 +105,27 @@ Proof.
   destruct (length b <? 4)%nat eqn:E; [split; discriminate|]. apply Nat.ltb_ge in E.
   unfold be_u32. rewrite be_uint_len_ok by lia.
   pose proof (validate_block_loop_ok b (unbe (firstn 4 b)) (S (length b)) 0 4 ltac:(lia) ltac:(lia)) as H.
-  destruct (validate_block_loop true (S (length b)) b (unbe (firstn 4 b)) 0 4); split; try congruence; try tauto.
-  intros ->. congruence.
+  destruct (validate_block_loop true (S (length b)) b (unbe (firstn 4 b)) 0 4);
+    split; try discriminate; try tauto. congruence.
 Qed.
 
 (** ** Decode on validated bytes: same walk as the validator; 16 bytes of budget are
     banked per cell to pay for strSlice, the scratch buffer is paid by its potential *)
-Lemma decode_follows_validate pc b count : forall fuel i off sl cap mm m,
+Lemma validate_loop_range b count : forall fuel i off m,
+  (off <= length b)%nat -> validate_strlist_loop true fuel b count i off = Ok m ->
+  (off <= m <= length b)%nat.
+Proof.
+  induction fuel as [|fuel IH]; intros i off m Ho H; cbn [validate_strlist_loop] in H.
+  - destruct (i <? count); [discriminate|]. inversion H; subst; lia.
+  - destruct (i <? count); [|inversion H; subst; lia].
+    cbn [andb] in H. destruct (length b <? off + 2)%nat eqn:E1; [discriminate|]. apply Nat.ltb_ge in E1.
+    rewrite slice_from_ok in H by lia. cbn [rbind] in H. unfold be_u16 in H.
+    rewrite be_uint_len_ok in H by (rewrite skipn_length; lia).
+    destruct (length b <? off + 2 + N.to_nat (unbe (firstn 2 (skipn off b))))%nat eqn:E2; [discriminate|].
+    apply Nat.ltb_ge in E2. apply IH in H; lia.
+Qed.
+
+Lemma decode_follows_validate b count : forall fuel i off sl cap mm m,
   0 < cap -> i <= count -> (off <= length b)%nat ->
   validate_strlist_loop true fuel b count i off = Ok m ->
   exists sl' mm' cap',
@@ -130,16 +145,159 @@ Proof.
     rewrite be_uint_len_ok in * by (rewrite skipn_length; lia).
     set (l := unbe (firstn 2 (skipn off b))) in *.
     destruct (length b <? off + 2 + N.to_nat l)%nat eqn:E2; [discriminate|]. apply Nat.ltb_ge in E2.
-    pose proof (validate_strlist_loop_ok b count fuel (i + 1) (off + 2 + N.to_nat l)%nat E2) as Hm.
+    pose proof (validate_loop_range b count fuel (i + 1) _ m E2 H) as Hm.
     destruct (l =? 0) eqn:El.
-    + apply N.eqb_eq in El. rewrite El in *. replace (off + 2 + N.to_nat 0)%nat with (off + 2)%nat in * by lia.
+    + apply N.eqb_eq in El. rewrite El in *.
+      replace (off + 2 + N.to_nat 0)%nat with (off + 2)%nat in * by lia.
       destruct (IH (i + 1) (off + 2)%nat (sl ++ [[]]) cap (mm + sz_string) m Hc ltac:(lia) ltac:(lia) H)
         as (sl' & mm' & cap' & Hd & Hcap & Hcap2 & Hb).
-      assert (off + 2 <= m)%nat.
-      { destruct fuel; cbn in H; [discriminate|].
-        assert (G := validate_strlist_loop_ok b count (S fuel) (i + 1) (off + 2)%nat).
-        cbn [validate_strlist_loop] in G. rewrite H in G.
-        admit. }
       exists sl', mm', cap'. rewrite Hd. unfold sz_string in *. repeat split; auto; lia.
-    + admit.
-Admitted.
+    + apply N.eqb_neq in El.
+      destruct (ensure_buf cap l) as [cap1 cost] eqn:Ee.
+      destruct (ensure_buf_spec _ _ _ _ Hc Ee) as (He1 & He2 & He3 & He4).
+      replace (l <=? cap1) with true by (symmetry; apply N.leb_le; lia).
+      rewrite slice_from_ok by lia.
+      destruct (IH (i + 1) (off + 2 + N.to_nat l)%nat (sl ++ [pad (N.to_nat l) (skipn (off + 2) b)])
+                   cap1 (mm + cost + sz_string + l) m ltac:(lia) ltac:(lia) ltac:(lia) H)
+        as (sl' & mm' & cap' & Hd & Hcap & Hcap2 & Hb).
+      exists sl', mm', cap'. rewrite Hd. unfold sz_string in *. repeat split; auto; lia.
+Qed.
+
+Lemma prealloc_le pc n : prealloc pc n <= n.
+Proof. destruct pc; cbn; lia. Qed.
+
+Theorem decode_validated pc b m : validate_strlist b = Ok m ->
+  exists sl mm, strlist_decode pc b = (Ok sl, mm) /\ mm <= 20 * N.of_nat (length b) + 12.
+Proof.
+  unfold validate_strlist, validate_strlist_gen, strlist_decode. cbn [andb].
+  destruct (length b <? 4)%nat eqn:E; [discriminate|]. apply Nat.ltb_ge in E.
+  unfold be_u32. rewrite be_uint_len_ok by lia. intros H.
+  pose proof (validate_loop_range _ _ _ _ _ _ E H) as Hm.
+  destruct (decode_follows_validate b (unbe (firstn 4 b)) (S (length b)) 0 4 [] strlist_cap0
+              (4 + sz_string * prealloc pc (unbe (firstn 4 b))) m ltac:(cbv; reflexivity) ltac:(lia) E H)
+    as (sl' & mm' & cap' & Hd & Hcap & Hcap2 & Hb).
+  exists sl', mm'. split; [exact Hd|].
+  pose proof (prealloc_le pc (unbe (firstn 4 b))). unfold sz_string, strlist_cap0 in *. lia.
+Qed.
+
+(** ** StrListDecoder.Read *)
+Definition cap_ok (cap : N) : Prop := 4 <= cap <= 131072.
+Definition K_cell : Z := 262160.       (* 2*131072 + 16 *)
+
+Lemma be_u16_pad_ok lb : length lb = 2%nat -> wf_bytes lb ->
+  exists l, be_u16 (pad 2 lb) = Ok l /\ l < 65536.
+Proof. intros Hl Hw. rewrite pad_exact by auto. now apply be_u16_ok. Qed.
+
+Lemma spec_strlist_cell F count i sl cap : cap_ok cap ->
+  spec F 16 (fun st' => - 16 + 2 * Z.of_N (snd st') - 2 * Z.of_N cap)%Z K_cell
+       (strlist_cell count i (sl, cap))
+       (fun st' n1 => (1 <= n1)%nat /\ cap_ok (snd st')).
+Proof.
+  intros Hcap. unfold strlist_cell, K_cell, cap_ok in *.
+  eapply (spec_bind _ _ _ 262160%Z); [apply spec_rdf|lia|].
+  intros [lb e] n1 (Hn & Hw & Hc). cbn [fst snd] in *.
+  destruct Hc as [[-> Hl]|[[-> [-> Hn0]]|[-> Hl]]]; [|sfail|sfail].
+  destruct (be_u16_pad_ok lb Hl Hw) as (l & -> & Hlb). cbn [lift bind].
+  destruct (l =? 0) eqn:El.
+  - eapply (spec_bind _ _ _ 0%Z); [apply spec_alloc|lia|]. intros _ n0 ->.
+    apply spec_ret; cbn [fst snd]; unfold sz_string; [lia|]. split; lia.
+  - apply N.eqb_neq in El.
+    destruct (ensure_buf cap l) as [cap' cost] eqn:Ee.
+    assert (Hc0 : 0 < cap) by lia. destruct (ensure_buf_spec _ _ _ _ Hc0 Ee) as (He1 & He2 & He3 & He4).
+    eapply (spec_bind _ _ _ 0%Z); [apply spec_alloc|lia|]. intros _ n0 ->.
+    replace (l <=? cap') with true by (symmetry; apply N.leb_le; lia).
+    eapply (spec_bind _ _ _ 0%Z); [apply spec_rdf|lia|].
+    intros [d e2] n2 (Hn2 & Hw2 & Hc2). cbn [fst snd] in *.
+    eapply (spec_bind _ _ _ 0%Z); [apply spec_alloc|lia|]. intros _ n3 ->.
+    unfold sz_string.
+    destruct Hc2 as [[-> Hl2]|[[-> [-> Hn02]]|[-> Hl2]]]; cbn [ioerr_is_eof andb length] in *.
+    + apply spec_ret; cbn [fst snd]; [lia|]. split; lia.
+    + destruct (i =? count - 1).
+      * apply spec_ret; cbn [fst snd]; [lia|]. split; lia.
+      * sfail.
+    + sfail.
+Qed.
+
+Lemma spec_strlist_read F cp cap : cap_ok cap ->
+  spec F 16 (fun x => 2 * Z.of_N (snd x) - 2 * Z.of_N cap - 64)%Z
+       (16 * Z.of_N cp + 524304)%Z
+       (strlist_read (Capped cp) F cap)
+       (fun x n => (4 <= n)%nat /\ cap_ok (snd x)).
+Proof.
+  intros Hcap. unfold strlist_read.
+  eapply (spec_bind _ _ _ 0%Z); [apply spec_rd_exact; lia|lia|].
+  intros cb n1 (-> & Hl & Hw). unfold zc.
+  destruct (be_u32_ok cb Hl Hw) as (count & -> & Hcb). cbn [lift bind].
+  eapply (spec_bind _ _ _ 0%Z); [apply spec_alloc|lia|]. intros _ n0 ->.
+  eapply spec_conseq.
+  - apply (spec_for_n_pot F 16 16 K_cell (fun st => 2 * Z.of_N (snd st))%Z 262144%Z
+             (fun _ st => cap_ok (snd st))); try (unfold K_cell; lia).
+    + intros _ st H. unfold cap_ok in H. lia.
+    + intros i [sl cap0] Hi HP. cbn [snd] in *. apply spec_strlist_cell; auto.
+    + lia.
+    + exact Hcap.
+  - intros [sl cap'] n HP. cbn [snd] in *. unfold sz_string. cbn [prealloc].
+    split; [lia|]. split; [lia|auto].
+  - unfold K_cell, sz_string, cap_ok in *. cbn [prealloc snd]. lia.
+Qed.
+
+Definition K_strlist (cp : N) : Z := (16 * Z.of_N cp + 524308)%Z.
+
+Lemma spec_strlist_read1 F cp :
+  spec F 16 (fun _ => 262084)%Z (K_strlist cp) (strlist_read1 (Capped cp) F) (fun _ n => (4 <= n)%nat).
+Proof.
+  unfold strlist_read1, K_strlist.
+  eapply (spec_bind _ _ _ 0%Z); [apply spec_alloc|lia|]. intros _ n0 ->.
+  eapply (spec_bind _ _ _ (16 * Z.of_N cp + 524304)%Z);
+    [apply (spec_strlist_read F cp strlist_cap0); unfold cap_ok, strlist_cap0; lia|lia|].
+  intros [sl cap'] n (Hn & Hc). cbn [snd] in *. unfold cap_ok, strlist_cap0 in *.
+  apply spec_ret; [lia|lia].
+Qed.
+
+(** ** UintListDecoder.Read / FloatListDecoder.Read *)
+Lemma spec_fixed_list F cp (st0 st1 : site) (w : nat) (f : bytes -> res N) (bound : N) (esz : N) :
+  (forall b, length b = w -> wf_bytes b -> exists v, f b = Ok v /\ v < bound) ->
+  (1 <= w)%nat -> (2 * Z.of_N esz <= 16 * Z.of_nat w)%Z ->
+  spec F 16 (fun _ => -64)%Z (Z.of_N esz * Z.of_N cp)%Z
+       (nb <- rd_exact st0 4 ;;
+        n <- lift (be_u32 nb) ;;
+        _ <- alloc (esz * prealloc (Capped cp) n) ;;
+        for_n F (fun _ sl =>
+                   ub <- rd_exact st1 w ;;
+                   u <- lift (f ub) ;;
+                   _ <- alloc esz ;;
+                   Ret (sl ++ [u])) n 0 [])%prog
+       (fun _ n => (4 <= n)%nat).
+Proof.
+  intros Hf Hw1 Hsz.
+  eapply (spec_bind _ _ _ 0%Z); [apply spec_rd_exact; lia|nia|].
+  intros nb n1 (-> & Hl & Hw). unfold zc.
+  destruct (be_u32_ok nb Hl Hw) as (n & -> & Hnb). cbn [lift bind].
+  eapply (spec_bind _ _ _ 0%Z); [apply spec_alloc|nia|]. intros _ n0 ->.
+  eapply spec_conseq.
+  - apply (spec_for_n F 16 (Z.of_N esz) 0%Z (fun _ _ => True)); try lia.
+    + intros i sl Hi _.
+      eapply (spec_bind _ _ _ 0%Z); [apply spec_rd_exact; lia|lia|].
+      intros ub n2 (-> & Hl2 & Hw2). unfold zc.
+      destruct (Hf ub Hl2 Hw2) as (u & -> & _). cbn [lift bind].
+      eapply (spec_bind _ _ _ 0%Z); [apply spec_alloc|lia|]. intros _ n3 ->.
+      apply spec_ret; [lia|]. split; [lia|exact I].
+    + lia.
+    + exact I.
+  - intros sl k _. cbn [prealloc]. split; [nia|lia].
+  - cbn [prealloc]. nia.
+Qed.
+
+Lemma spec_uintlist_read F cp :
+  spec F 16 (fun _ => -64)%Z (4 * Z.of_N cp)%Z (uintlist_read (Capped cp) F) (fun _ n => (4 <= n)%nat).
+Proof.
+  unfold uintlist_read.
+  apply (spec_fixed_list F cp S_ulist_u32 S_ulist_u32 4 be_u32 4294967296 4); [apply be_u32_ok|lia|lia].
+Qed.
+
+Lemma spec_floatlist_read F cp :
+  spec F 16 (fun _ => -64)%Z (8 * Z.of_N cp)%Z (floatlist_read (Capped cp) F) (fun _ n => (4 <= n)%nat).
+Proof.
+  unfold floatlist_read.
+  apply (spec_fixed_list F cp S_flist_u32 S_flist_f64 8 be_u64 18446744073709551616 8); [apply be_u64_ok|lia|lia].
+Qed.
